@@ -198,14 +198,31 @@ class Tables:
                 fn = "point::Point::" + m
             elif isinstance(recv, tuple) and recv and recv[0] == "cell":
                 fn = "cell::Cell::" + m
-            elif m in ("clone", "to_owned"):
-                return recv
+            elif m in ("clone", "to_owned", "iter", "into_iter", "cloned", "copied", "collect", "to_vec", "into_boxed_slice") and not args:
+                return recv   # lists are values here: iterating, cloning and collecting them change nothing
+            elif m == "map" and isinstance(recv, tuple) and recv and recv[0] == "list" and len(args) == 1 and isinstance(args[0], tuple) and args[0][0] == "closure":
+                return ("list", [self.apply_closure(args[0], [x], e) for x in recv[1]])
+            elif m == "chain" and isinstance(recv, tuple) and recv and recv[0] == "list" and len(args) == 1 and isinstance(args[0], tuple) and args[0][0] == "list":
+                return ("list", list(recv[1]) + list(args[0][1]))
+            elif m == "filter" and isinstance(recv, tuple) and recv and recv[0] == "list":
+                raise TableError("filter over a rule list (line %d)" % e["pos"][0])
             else:
                 raise TableError("method %s on %r (line %d)" % (m, recv, e["pos"][0]))
             try:
                 return self.folder.call(self._fn(fn), [recv] + args)
             except Unfoldable as ex:
                 raise TableError("cannot fold %s: %s" % (fn, ex))
+        if k == "if":
+            c = self.ev(e["cond"], env)
+            a = self.ev(e["then"], env)
+            b = self.ev(e["else"], env) if e.get("else") else None
+            if c is True:
+                return a
+            if c is False:
+                return b
+            # a choice that depends on the neighbours: kept symbolic; a rule `(cond, if c { A } else { B })` is later split
+            # into `(cond && c, A)` and `(cond && !c, B)`
+            return ("choice", self.as_cond(c), a, b)
         if k == "closure":
             return ("closure", e, dict(env))
         if k == "block":
@@ -213,10 +230,9 @@ class Tables:
             val = None
             for st in e["stmts"]:
                 if st["k"] == "let":
-                    n = st["pat"].get("name") or (st["pat"].get("inner") or {}).get("name")
-                    if n is None or "init" not in st:
+                    if "init" not in st:
                         raise TableError("unsupported let (line %d)" % st["pos"][0])
-                    env2[n] = self.ev(st["init"], env2)
+                    self.bind(st["pat"], self.ev(st["init"], env2), env2, st["pos"][0])
                 elif st["k"] == "expr_stmt" and not st["semi"]:
                     val = self.ev(st["expr"], env2)
                 elif st["k"] == "expr_stmt" and st["expr"].get("k") == "method" and st["expr"]["method"] in ("push", "extend") and \
@@ -238,18 +254,32 @@ class Tables:
             return val
         raise TableError("unsupported syntax %s (line %s)" % (k, e.get("pos", ["?"])[0]))
 
+    def bind(self, pat, val, env, line):
+        """bind the names of a pattern (identifier, tuple, reference, typed, wildcard) to the parts of a value"""
+        pk = pat.get("pk")
+        if pk is None and pat.get("name"):
+            pk = "ident"
+        if pk == "ident":
+            env[pat["name"]] = val
+        elif pk == "wild":
+            pass
+        elif pk in ("ref", "typed"):
+            self.bind(pat["inner"], val, env, line)
+        elif pk == "tuple":
+            if not (isinstance(val, tuple) and val and val[0] == "tuple" and len(val[1]) == len(pat["elems"])):
+                raise TableError("tuple pattern against %r (line %d)" % (val, line))
+            for sub, v in zip(pat["elems"], val[1]):
+                self.bind(sub, v, env, line)
+        else:
+            raise TableError("pattern %s (line %d)" % (pk, line))
+
     def apply_closure(self, cl, args, e):
         _, ce, cenv = cl
-        names = []
-        for p_ in ce["params"]:
-            n_ = p_.get("name") or (p_.get("inner") or {}).get("name")
-            if n_ is None:
-                raise TableError("closure parameter pattern (line %d)" % ce["pos"][0])
-            names.append(n_)
-        if len(names) != len(args):
-            raise TableError("closure called with %d arguments, takes %d (line %d)" % (len(args), len(names), e["pos"][0]))
+        if len(ce["params"]) != len(args):
+            raise TableError("closure called with %d arguments, takes %d (line %d)" % (len(args), len(ce["params"]), e["pos"][0]))
         env2 = dict(cenv)
-        env2.update(zip(names, args))
+        for p_, a_ in zip(ce["params"], args):
+            self.bind(p_, a_, env2, ce["pos"][0])
         return self.ev(ce["body"], env2)
 
     def cond(self, e, env):
@@ -352,8 +382,18 @@ class Tables:
             if not (isinstance(bv, tuple) and bv[0] == "list"):
                 raise TableError("behaviour of %r does not evaluate to a vec![..]" % ch)
             behaviour = []
-            for i, t in enumerate(bv[1]):
+            flat = []
+            for t in bv[1]:
                 c, frs = t[1]
+                if isinstance(frs, tuple) and frs and frs[0] == "choice":
+                    cc = self.as_cond(c)
+                    flat.append((("and", cc, frs[1]), frs[2]))
+                    flat.append((("and", cc, ("not", frs[1])), frs[3] if frs[3] is not None else ("list", [])))
+                else:
+                    flat.append((c, frs))
+            for i, (c, frs) in enumerate(flat):
+                if not (isinstance(frs, tuple) and frs and frs[0] == "list"):
+                    raise TableError("fragments of a rule of %r are not a list (line %d)" % (ch, ent["pos"][0]))
                 behaviour.append({"cond": self.as_cond(c), "frags": list(frs[1]), "index": i,
                                   "line": (frs[1][0][-1] if frs[1] else ent["pos"][0])})
             if ch in self.ascii:
